@@ -104,9 +104,6 @@ Proof. intros H. cbn [read]. rewrite H. reflexivity. Qed.
 (* well-formedness used by the agreement theorem *)
 Definition links_are_links (st : state) : Prop :=
   forall o n d r m, find_trait st o n = Some (Deleg d r m) -> find_trait st o d = Some Link.
-(* excludes finding "class-prefix-at-later-hop": one __prefix__ for all classes of the pool *)
-Definition same_prefix (st : state) : Prop :=
-  forall o1 o2, c_prefix (cls_of st o1) = c_prefix (cls_of st o2).
 (* excludes finding "through-local": no deferring attribute holds a local value *)
 Definition no_deferring_locals (st : state) : Prop :=
   forall o n d r m, find_trait st o n = Some (Deleg d r m) -> dict_get st o n = None.
@@ -115,19 +112,18 @@ Lemma read_link st o d a b : find_trait st o d = Some Link -> read (S a) st o d 
 Proof. intros H. apply read_terminal. rewrite H. exact I. Qed.
 
 (* The node an assignment through (cur, dn) is stored at is the node its value is read from. *)
-Theorem walk_read_agree st origin :
-  links_are_links st -> same_prefix st -> no_deferring_locals st ->
+Theorem walk_read_agree st :
+  links_are_links st -> no_deferring_locals st ->
   forall f cur d r m dn p t tr,
     find_trait st cur dn = Some (Deleg d r m) ->
-    walk f st origin cur d r dn = Ok (p, t, tr) ->
+    walk f st cur d r dn = Ok (p, t, tr) ->
     (match find_trait st p t with Some (Deleg _ _ _) => False | _ => True end) /\
     forall g, read (f + S g) st cur dn = read (S g) st p t.
 Proof.
-  intros Hlinks Hpre Hloc. induction f as [|f IH]; intros cur d r m dn p t tr Htr Hw; [discriminate|].
+  intros Hlinks Hloc. induction f as [|f IH]; intros cur d r m dn p t tr Htr Hw; [discriminate|].
   cbn [walk] in Hw.
   pose proof (Hlinks _ _ _ _ _ Htr) as Hd.
   destruct (rd st cur d) as [[z| | |p1]|e] eqn:Hrd; try discriminate.
-  rewrite (Hpre origin cur) in Hw.
   set (dn' := attr_name r (c_prefix (cls_of st cur)) dn) in *.
   assert (forall g, read (S f + S g) st cur dn = read (f + S g) st p1 dn') as Hstep.
   { intros g. change (S f + S g)%nat with (S (f + S g)). cbn [read].
@@ -148,8 +144,8 @@ Proof.
 Qed.
 
 (* ---------- the chain walk: fuel ---------- *)
-Theorem walk_fuel_mono st origin : forall f cur d r dn x,
-  walk f st origin cur d r dn = Ok x -> forall k, walk (f + k) st origin cur d r dn = Ok x.
+Theorem walk_fuel_mono st : forall f cur d r dn x,
+  walk f st cur d r dn = Ok x -> forall k, walk (f + k) st cur d r dn = Ok x.
 Proof.
   induction f as [|f IH]; intros cur d r dn x Hw k; [discriminate|].
   cbn [walk plus] in *. destruct (rd st cur d) as [[z| | |p1]|e]; try discriminate.
@@ -157,8 +153,8 @@ Proof.
 Qed.
 
 (* what the walk returns never defers again: the chain was followed to its end *)
-Theorem walk_terminal st origin : forall f cur d r dn p t tr,
-  walk f st origin cur d r dn = Ok (p, t, tr) -> match tr with Deleg _ _ _ => False | _ => True end.
+Theorem walk_terminal st : forall f cur d r dn p t tr,
+  walk f st cur d r dn = Ok (p, t, tr) -> match tr with Deleg _ _ _ => False | _ => True end.
 Proof.
   induction f as [|f IH]; intros cur d r dn p t tr Hw; [discriminate|].
   cbn [walk] in Hw. destruct (rd st cur d) as [[z| | |p1]|e]; try discriminate.
@@ -178,7 +174,7 @@ Definition checked_by (t : trait) (v : value) : option value :=
 (* invalid for the trait at the end of the chain: TraitError, nothing changes, nobody is notified *)
 Theorem invalid_rejected st o n d r m p t tr v :
   find_trait st o n = Some (Deleg d r m) ->
-  walk 100 st o o d r n = Ok (p, t, tr) ->
+  walk 100 st o d r n = Ok (p, t, tr) ->
   checked_by tr v = None ->
   set_attr st o n v = (st, Raised TraitError, []).
 Proof.
@@ -191,12 +187,12 @@ Qed.
 (* DelegatesTo: a valid assignment is one dict store at the end of the chain, nothing else *)
 Theorem delegatesto_store st o n d r p t tr v w :
   find_trait st o n = Some (Deleg d r true) ->
-  walk 100 st o o d r n = Ok (p, t, tr) ->
+  walk 100 st o d r n = Ok (p, t, tr) ->
   checked_by tr v = Some w ->
   fst (fst (set_attr st o n v)) = dict_set st p t w /\ snd (fst (set_attr st o n v)) = Done.
 Proof.
   intros Htr Hw Hc. unfold set_attr. rewrite Htr, Hw. unfold set_plain.
-  pose proof (walk_terminal _ _ _ _ _ _ _ _ _ _ Hw) as Ht.
+  pose proof (walk_terminal _ _ _ _ _ _ _ _ _ Hw) as Ht.
   destruct tr; cbn in Hc; try contradiction; rewrite ?Hc; try (injection Hc as ->); split; reflexivity.
 Qed.
 
@@ -204,13 +200,13 @@ Qed.
    prototype's dict is untouched), and the forwarder is detached *)
 Theorem prototyped_store st o n d r p t tr v w old :
   find_trait st o n = Some (Deleg d r false) ->
-  walk 100 st o o d r n = Ok (p, t, tr) ->
+  walk 100 st o d r n = Ok (p, t, tr) ->
   checked_by tr v = Some w ->
   rd st o n = Ok old ->
   fst (fst (set_attr st o n v)) = ltab_del (dict_set st o n w) (o, n) /\ snd (fst (set_attr st o n v)) = Done.
 Proof.
   intros Htr Hw Hc Hrd. unfold set_attr. rewrite Htr, Hw.
-  pose proof (walk_terminal _ _ _ _ _ _ _ _ _ _ Hw) as Ht.
+  pose proof (walk_terminal _ _ _ _ _ _ _ _ _ Hw) as Ht.
   destruct tr; cbn in Hc; try contradiction; rewrite ?Hc; try (injection Hc as ->); rewrite Hrd; split; reflexivity.
 Qed.
 
@@ -252,21 +248,25 @@ Proof.
 Qed.
 
 Theorem delete_restores_link st o n d r p t tr old :
-  (o < length (objs st))%nat -> listenable st o n = true ->
+  (o < length (objs st))%nat ->
   find_trait st o n = Some (Deleg d r false) ->
-  walk 100 st o o d r n = Ok (p, t, tr) ->
+  walk 100 st o d r n = Ok (p, t, tr) ->
   dict_get st o n = Some old ->
   let st' := fst (fst (del_attr st o n)) in
-  st' = ltab_add (dict_del st o n) (o, n) /\
-  dict_get st' o n = None /\ has_node (o, n) (ltab st') = true /\
+  st' = (if listenable st o n then ltab_add (dict_del st o n) (o, n) else dict_del st o n) /\
+  dict_get st' o n = None /\
+  (listenable st o n = true -> has_node (o, n) (ltab st') = true) /\
+  (listenable st o n = false -> ltab st' = ltab st) /\
   snd (fst (del_attr st o n)) = Done.
 Proof.
-  intros Hlt Hli Htr Hw Hl st'. subst st'. unfold del_attr. rewrite Htr, Hw, Hli, Hl. cbn [fst snd].
-  split; [reflexivity|]. split; [|split; [|reflexivity]].
-  - change (dict_get (ltab_add (dict_del st o n) (o, n)) o n) with (dict_get (dict_del st o n) o n).
-    unfold dict_get, get_obj, dict_del. cbn [objs]. rewrite nth_update_same by exact Hlt. cbn.
-    apply nassoc_ndel_same.
-  - unfold ltab_add. cbn [ltab]. apply has_node_add.
+  intros Hlt Htr Hw Hl st'. subst st'. unfold del_attr. rewrite Htr, Hw, Hl.
+  assert (dict_get (dict_del st o n) o n = None) as Hnone.
+  { unfold dict_get, get_obj, dict_del. cbn [objs]. rewrite nth_update_same by exact Hlt. cbn.
+    apply nassoc_ndel_same. }
+  destruct (listenable st o n); cbn [fst snd].
+  - split; [reflexivity|]. split; [exact Hnone|]. split; [|split; [discriminate|reflexivity]].
+    intros _. unfold ltab_add. cbn [ltab]. apply has_node_add.
+  - split; [reflexivity|]. split; [exact Hnone|]. split; [discriminate|]. split; reflexivity.
 Qed.
 
 (* ---------- forwarding ---------- *)
